@@ -224,9 +224,8 @@ AdditionalOk(resp, V, q) ==
 
 \* The verdict for one response, as the name of the first clause of the property it breaks ("ok" = none).
 \* L = the client's location, q = [name, type, maxans, ...]
-JudgeAt(R, L, q, resp) ==
-  LET V == Visible(R, L)
-      sufs == Suffixes(q.name)
+JudgeV(V, q, resp) ==
+  LET sufs == Suffixes(q.name)
       ci == CutIndex(V, sufs)
   IN IF ~resp.written THEN "C01:no-response"
      ELSE IF ci = 0 THEN
@@ -267,6 +266,13 @@ JudgeAt(R, L, q, resp) ==
                   ELSE IF resp.an # <<>> /\ ~(SeqToSet(resp.ns) \subseteq nss) THEN "C01:authority"
                   ELSE IF ~AdditionalOk(resp, V, q) THEN "C11:additional"
                   ELSE "ok"
+
+JudgeAt(R, L, q, resp) == JudgeV(Visible(R, L), q, resp)
+
+\* C04: the record sets a server would be answering from if it got visibility wrong for a client of location L:
+\* only the tagged records, only the untagged ones, every record, or another location's view
+WrongViews(R, L) ==
+  {{r \in R : r.loc = L}, {r \in R : r.loc = 0}, R} \cup {Visible(R, L2) : L2 \in {r.loc : r \in R} \ {0, L}}
 
 \* a query is judgeable when the oracle is not silent: class IN, type not ANY / DS-at-a-cut / OPT-like
 Judgeable(q) == q.class = 1 /\ q.type # T_ANY /\ q.type # T_DS /\ q.type \notin {41, 250, 251, 252, 253, 254}
